@@ -158,7 +158,7 @@ def rule_tpl_crate_path(ctx):
                     {"template": t.text()[:200]},
                 )
     ctx.cur.instances += n
-    ctx.floor("`derive_more` path roots in templates", n, 180)
+    ctx.floor("`derive_more` path roots in templates", n, 120)
 
 
 def rule_tpl_hyg(ctx):
